@@ -26,7 +26,7 @@ CONFIG_DOMAIN = {
     "array.rechunk.threshold": [1, 2, 4, 16, 32],
     "array.rechunk.degree-limit": [2, 4, 64],
     "array.rechunk.method": ["tasks", None],
-    "array.chunk-size": ["64B", "256B", "4KiB", "128MiB"],
+    "array.chunk-size": ["16B", "64B", "256B", "4KiB", "128MiB"],
     "array.unify-chunks-policy": ["auto", "coarse", "refine"],
     "array.unify-chunks-limit": [None, "64B", "1KiB", "2GiB"],
     "split_every": [2, 3, 16],
